@@ -628,6 +628,8 @@ class X:
             raise Unsupported(f'assignment target {type(target).__name__}')
 
     def unpack(self, val, n):
+        if hasattr(val, 'unpack'):
+            return val.unpack(self, n)
         if isinstance(val, (VTuple, VList)):
             if len(val.items) != n:
                 self.raise_(ValueError, 'unpack')
@@ -934,8 +936,29 @@ class X:
         return VList([self.eval(i) for i in e.elts])
 
     def ex_JoinedStr(self, e):
-        # f-strings occur only in messages of exceptions: opaque fresh string
-        return self.fresh_str('fstr')
+        # f-string: concatenation of constants and str() of plain {expr} fields; anything with a conversion or a
+        # format spec, or a field whose str() is not modelled, makes the whole string an opaque fresh value
+        # (such strings occur only in messages of exceptions)
+        from . import pymodels
+        parts = []
+        opaque = False
+        for v in e.values:
+            if isinstance(v, ast.Constant):
+                parts.append(z3.StringVal(v.value))
+            elif isinstance(v, ast.FormattedValue) and v.conversion == -1 and v.format_spec is None:
+                try:
+                    val = self.eval(v.value)
+                    sv = pymodels.str_model(self, [val])
+                    parts.append(sv.t)
+                except Unsupported:
+                    opaque = True
+            else:
+                opaque = True
+        if opaque:
+            return self.fresh_str('fstr')
+        if not parts:
+            return VStr('')
+        return VStr(parts[0] if len(parts) == 1 else z3.Concat(*parts))
 
     def ex_IfExp(self, e):
         if self.decide(self.truth(self.eval(e.test))):
@@ -1020,6 +1043,13 @@ class X:
                 return z3.BoolVal(r if isinstance(op, ast.Is) else not r)
             if a is b:
                 return z3.BoolVal(isinstance(op, ast.Is))
+            if isinstance(a, VBool) or isinstance(b, VBool):
+                # `x is True` / `x is False`: bool singletons; any non-bool value is a different object
+                if isinstance(a, VBool) and isinstance(b, VBool):
+                    t = a.t == b.t
+                else:
+                    t = z3.BoolVal(False)
+                return t if isinstance(op, ast.Is) else z3.Not(t)
             if isinstance(a, VFunc) and isinstance(b, VFunc):
                 return z3.BoolVal((a.name == b.name) == isinstance(op, ast.Is))
             raise Unsupported('identity comparison')
@@ -1105,6 +1135,8 @@ class X:
         return self.getitem(obj, key)
 
     def getitem(self, obj, key):
+        if hasattr(obj, 'getitem'):
+            return obj.getitem(self, key)
         if isinstance(obj, (VTuple, VList)) and isinstance(key, VInt):
             k = simp(key.t)
             if z3.is_int_value(k):
@@ -1134,6 +1166,9 @@ class X:
         raise Unsupported(f'subscript of {type(obj).__name__}')
 
     def setitem(self, obj, key, val):
+        if isinstance(obj, VObj) and obj.cls == 'StrDict' and isinstance(key, VStr) and z3.is_string_value(simp(key.t)):
+            obj.fields[simp(key.t).as_string()] = val
+            return
         if isinstance(obj, VMap):
             k = obj.kunwrap(key)
             obj.has = z3.Store(obj.has, k, z3.BoolVal(True))
@@ -1190,6 +1225,10 @@ class X:
         kwargs = {}
         for k in e.keywords:
             if k.arg is None:
+                kv = self.eval(k.value)
+                if isinstance(kv, VObj) and kv.cls == 'StrDict':
+                    kwargs.update(kv.fields)
+                    continue
                 raise Unsupported('**kwargs call')
             kwargs[k.arg] = self.eval(k.value)
         self.where = ('call', e.lineno, dotted)
@@ -1204,6 +1243,9 @@ class X:
         raise Unsupported(f'call of {type(f).__name__}')
 
     def construct(self, pyclass, args, kwargs):
+        r = self.contract.construct_hook(self, pyclass, args, kwargs)
+        if r is not None:
+            return r
         if isinstance(pyclass, type) and issubclass(pyclass, BaseException):
             return VExc(pyclass, payload=args)
         if pyclass is int:
